@@ -500,7 +500,25 @@ def suites_c08(tier, seed):
     s2 = Suite("oracle:sql-deleted-unreachable")
     s2.rule = "after histories with deletions: every id a kind-5 event removed is absent from REQ {ids:[id]} and DBStorage.get_event"
     check_unreachable(s2, [h for h in hs][: (60 if tier == "quick" else 600)])
-    return [s1, s2]
+    s3 = Suite("corr:sql-submit/delete-then-gc")
+    s3.rule = ("threads: notes of two authors, replies and reactions of the other author that e-tag them, a kind-5 of one author that references "
+               "one of its notes (and a foreign one), then a collector pass, a later reply, another pass: nothing but what the deletion referenced "
+               "(and nothing at all during the passes: no event expires) may disappear; dumps vs model; C08 frame on the implementation's dumps; "
+               "non-trivial = a deletion removed something and a pass ran afterwards")
+    hs3 = []
+    for _ in range(12 if tier == "quick" else 150):
+        a, b = rng.sample(range(3), 2)
+        notes = [ev(a, 1, 10 + i, [["t", "n"]], content="note%d" % i) for i in range(rng.randint(2, 4))]
+        other = [ev(b, 1, 20 + i, [], content="other%d" % i) for i in range(rng.randint(1, 2))]
+        replies = [ev(rng.choice([a, b]), rng.choice([1, 7]), 30 + i, [["e", rng.choice(notes + other)["id"]], ["p", env.PUBS[a]]], content="re%d" % i)
+                   for i in range(rng.randint(2, 5))]
+        dele = ev(a, 5, 50, [["e", notes[0]["id"]]] + ([["e", other[0]["id"]]] if rng.random() < 0.5 else []), content="bye")
+        late = ev(b, 1, 60, [["e", notes[-1]["id"]]], content="late")
+        steps = [step_add(e) for e in notes + other + replies]
+        rng.shuffle(steps)
+        hs3.append(steps + [step_add(dele), step_gc(NOW), step_add(late), step_gc(NOW + 400)])
+    run_histories(s3, hs3, classes={"delete_ineffective", "store_frame_broken", "tags_incoherent", "gc_not_exact"}, nontrivial=removed_something)
+    return [s1, s2, s3]
 
 
 def check_unreachable(suite, histories):
@@ -600,6 +618,14 @@ def gc_events(rng, T):
         else:
             tags = []
         evs.append(ev(rng.randrange(3), kind, 100 + i, tags, content="g%d" % i))
+    # replies / reactions that e-tag stored events, and a deletion by some author: a pass must not take any of that for garbage
+    for j in range(rng.randint(0, 3)):
+        tgt = rng.choice(evs)
+        evs.append(ev(rng.randrange(3), rng.choice([1, 7]), 200 + j, [["e", tgt["id"]], ["p", tgt["pubkey"]]], content="re%d" % j))
+    if rng.random() < 0.5:
+        tgt = rng.choice(evs)
+        who = env.PUBS.index(tgt["pubkey"])
+        evs.append(ev(who, 5, 300, [["e", tgt["id"]]], content="del"))
     return evs
 
 
